@@ -122,6 +122,11 @@ def run_history(case):
             d[b"nodes"] = [[b"n.example", 6881]]
             d[b"info"][b"x-info"] = b"kept"
             d[b"info"][b"aaa-first"] = 7
+            if b"private" not in d[b"info"] and case.get("foreign_private"):
+                d[b"info"][b"private"] = 0          # "not private", spelled out as other tools do
+            fl = d[b"info"].get(b"files")
+            if fl:
+                fl[0][b"attr"] = b"x"               # executable flag on a regular file (BEP 47)
             raw = bencode(d)
             with open(out, "wb") as fh:
                 fh.write(raw)
